@@ -497,7 +497,7 @@ theorem ExtEq.get {t t' : M κ σ} (h : ExtEq (V.map t) (V.map t')) (k : κ) : O
 
 theorem OExt.head {a b : Option (V κ σ)} (h : OExt a b) : obs a = obs b := by
   have := h []
-  cases a <;> cases b <;> simpa [getPath_nil] using this
+  cases a <;> cases b <;> simp_all [getPath_nil]
 
 theorem OExt.some_map {m m' : M κ σ} (h : OExt (some (V.map m)) (some (V.map m'))) :
     ExtEq (V.map m) (V.map m') := by
@@ -611,5 +611,156 @@ theorem mergeInto_ext : ∀ (n : Nat) (s s' t t' : M κ σ), s.size ≤ n → s.
           | scalar _ => simp [obs] at hbh
           | dflt _ => simp [obs] at hbh
           | list _ => simp [obs] at hbh
+
+
+/-! ### permuting the entries of a mapping does not change any lookup -/
+
+def lget : List (κ × V κ σ) → κ → Option (V κ σ)
+  | [], _ => none
+  | (k', v) :: r, k => if k' = k then some v else lget r k
+
+theorem get_toList : ∀ (m : M κ σ) (k : κ), m.get k = lget m.toList k
+  | .nil, _ => rfl
+  | .cons k0 v0 rest, k => by simp [M.get, M.toList, lget, get_toList rest k]
+
+theorem lget_none : ∀ (l : List (κ × V κ σ)) (k : κ), lget l k = none ↔ k ∉ l.map Prod.fst
+  | [], k => by simp [lget]
+  | (k0, v0) :: r, k => by
+    by_cases hk : k0 = k
+    · simp [lget, hk]
+    · have := lget_none r k
+      simp only [lget, hk, if_false, this, List.map_cons, List.mem_cons, not_or]
+      exact ⟨fun h => ⟨fun e => hk e.symm, h⟩, fun h => h.2⟩
+
+theorem noDup_toList : ∀ (m : M κ σ), m.NoDupKeys ↔ (m.toList.map Prod.fst).Nodup
+  | .nil => by simp [M.NoDupKeys, M.toList]
+  | .cons k v rest => by
+    simp [M.NoDupKeys, M.toList, noDup_toList rest, get_toList, lget_none]
+
+theorem lget_perm {l l' : List (κ × V κ σ)} (h : l.Perm l') (k : κ) :
+    (l.map Prod.fst).Nodup → lget l k = lget l' k := by
+  induction h with
+  | nil => intro _; rfl
+  | cons x _ ih =>
+    intro hn
+    obtain ⟨k0, v0⟩ := x
+    simp only [List.map_cons, List.nodup_cons] at hn
+    simp [lget, ih hn.2]
+  | swap x y l =>
+    intro hn
+    obtain ⟨kx, vx⟩ := x
+    obtain ⟨ky, vy⟩ := y
+    simp only [List.map_cons, List.nodup_cons, List.mem_cons, not_or] at hn
+    have hne : ky ≠ kx := hn.1.1
+    by_cases h1 : kx = k <;> by_cases h2 : ky = k <;> simp [lget, h1, h2]
+    exact absurd (h2.trans h1.symm) hne
+  | trans h1 _ ih1 ih2 =>
+    intro hn
+    rw [ih1 hn, ih2 ((h1.map Prod.fst).nodup_iff.mp hn)]
+
+/-! ### `dict.update` (C++ shorthand groups) -/
+
+theorem get_dictUpdate : ∀ (g o : M κ σ) (k : κ), g.NoDupKeys →
+    (dictUpdate o g).get k = match g.get k with | some v => some v | none => o.get k
+  | .nil, o, k, _ => by simp [dictUpdate, M.get]
+  | .cons k0 v0 rest, o, k, h => by
+    rw [dictUpdate, get_dictUpdate rest _ k h.2]
+    by_cases hk : k0 = k
+    · subst hk; simp [M.get, h.1, M.get_set]
+    · simp [M.get, hk, M.get_set]
+
+/-! ### builder: closed form of an op sequence -/
+
+/-- Files merged in call order (everything else ignored). -/
+def cfgOf (valid : κ → Bool) (c : M κ σ) : List (Op κ σ) → Except Err (M κ σ)
+  | [] => .ok c
+  | .addFile doc :: ops =>
+    (match update valid c doc with
+     | .ok c' => cfgOf valid c' ops
+     | .error e => .error e)
+  | _ :: ops => cfgOf valid c ops
+
+/-- The pending overrides after the calls (only `setOverride` with a value matters). -/
+def ovrOf (o : M κ σ) : List (Op κ σ) → M κ σ
+  | [] => o
+  | .setOverride k (some v) :: ops => ovrOf (o.set k v) ops
+  | _ :: ops => ovrOf o ops
+
+def langOf (d : κ) (l : Option κ) : List (Op κ σ) → Option κ
+  | [] => l
+  | .setLanguage none :: ops => langOf d (some d) ops
+  | .setLanguage (some x) :: ops => langOf d (some x) ops
+  | _ :: ops => langOf d l ops
+
+theorem run_closed (valid : κ → Bool) (d : κ) : ∀ (ops : List (Op κ σ)) (b : Builder κ σ),
+    Builder.run valid d b ops =
+      match cfgOf valid b.config ops with
+      | .ok c => .ok ⟨c, ovrOf b.overrides ops, langOf d b.lang ops⟩
+      | .error e => .error e
+  | [], b => by simp [Builder.run, cfgOf, ovrOf, langOf]
+  | op :: ops, b => by
+    cases op with
+    | addFile doc =>
+      simp only [Builder.run, Builder.apply, cfgOf]
+      cases h : update valid b.config doc with
+      | error e => simp
+      | ok c => simp [run_closed valid d ops, ovrOf, langOf]
+    | setOverride k v =>
+      cases v with
+      | none => simp [Builder.run, Builder.apply, cfgOf, ovrOf, langOf, run_closed valid d ops]
+      | some v => simp [Builder.run, Builder.apply, cfgOf, ovrOf, langOf, run_closed valid d ops]
+    | setLanguage l =>
+      cases l with
+      | none => simp [Builder.run, Builder.apply, cfgOf, ovrOf, langOf, run_closed valid d ops]
+      | some l => simp [Builder.run, Builder.apply, cfgOf, ovrOf, langOf, run_closed valid d ops]
+
+theorem cfgOf_filter (valid : κ → Bool) : ∀ (ops : List (Op κ σ)) (c : M κ σ),
+    cfgOf valid c ops = cfgOf valid c (ops.filter Op.isFile)
+  | [], c => rfl
+  | op :: ops, c => by
+    cases op with
+    | addFile doc =>
+      simp only [cfgOf, List.filter_cons, Op.isFile, if_true]
+      cases update valid c doc with
+      | error e => rfl
+      | ok c' => exact cfgOf_filter valid ops c'
+    | setOverride k v => simpa [cfgOf, Op.isFile] using cfgOf_filter valid ops c
+    | setLanguage l => simpa [cfgOf, Op.isFile] using cfgOf_filter valid ops c
+
+theorem ovrOf_filter : ∀ (ops : List (Op κ σ)) (o : M κ σ),
+    ovrOf o ops = ovrOf o (ops.filter fun op => !op.isFile)
+  | [], o => rfl
+  | op :: ops, o => by
+    cases op with
+    | addFile doc => simpa [ovrOf, Op.isFile] using ovrOf_filter ops o
+    | setOverride k v =>
+      cases v with
+      | none => simpa [ovrOf, Op.isFile] using ovrOf_filter ops o
+      | some v => simpa [ovrOf, Op.isFile] using ovrOf_filter ops (o.set k v)
+    | setLanguage l => simpa [ovrOf, Op.isFile] using ovrOf_filter ops o
+
+omit [DecidableEq κ] in
+theorem langOf_filter (d : κ) : ∀ (ops : List (Op κ σ)) (l : Option κ),
+    langOf d l ops = langOf d l (ops.filter fun op => !op.isFile)
+  | [], l => rfl
+  | op :: ops, l => by
+    cases op with
+    | addFile doc => simpa [langOf, Op.isFile] using langOf_filter d ops l
+    | setOverride k v => simpa [langOf, Op.isFile] using langOf_filter d ops l
+    | setLanguage x =>
+      cases x with
+      | none => simpa [langOf, Op.isFile] using langOf_filter d ops (some d)
+      | some x => simpa [langOf, Op.isFile] using langOf_filter d ops (some x)
+
+theorem deepUpdate_idem (t : V κ σ) (s : M κ σ) (hw : s.WF) :
+    deepUpdate (deepUpdate t s) s = deepUpdate t s := by
+  have hself : mergeInto s s = s := by
+    have := mergeInto_idem s .nil hw
+    rwa [mergeInto_nil_left s hw] at this
+  cases t with
+  | map tm => simp [deepUpdate, mergeInto_idem s tm hw]
+  | scalar x => simp [deepUpdate, hself]
+  | dflt x => simp [deepUpdate, hself]
+  | list x => simp [deepUpdate, hself]
 
 end NunavutVerif.Config
